@@ -267,6 +267,25 @@ OBLIGATIONS.append(M("C20", "c20_mode_dispatch", {"q": "aes_dispatch"}, ["AES::e
                      "all four AESAlgorithms variants x both directions; key and IV of symbolic length <= 64, message of symbolic length (64-bit)", cost=1,
                      stubs=("E2 AES models: Cbc::<C, P>::new_from_slices / encrypt_vec / decrypt_vec and <T as NewCipher>::new_from_slices / StreamCipherSeek::seek / StreamCipher::apply_keystream are uninterpreted functions named after the concrete cipher type at the call site, with the key/IV size test of the real constructors",)))
 
+# ---------------------------------------------------------------- C08 (BIP32 glue only)
+EXPLANATION["C08"] = ("Partial: the BIP32 GLUE only. Scalar addition mod n, point addition / generator multiplication, key and point validity, HMAC-SHA512, HASH160, SHA256d and the Base58 alphabet "
+                      "are uninterpreted (Base58 as a constructor that decode inverts) - equality with an independent BIP32 implementation therefore holds modulo those primitives and is additionally "
+                      "spot-checked natively against an independent implementation on two fixed paths, which is not part of the solver claim. E2 executes the crate's own code from MIR and decides, for every "
+                      "parent state and index: from_seed = split of HMAC-SHA512(key 'Bitcoin seed', data seed), depth 0, index 0, fingerprint 0; CKDpriv uses data 00||k||ser32(i) exactly for i >= 2^31 and "
+                      "serP(K)||ser32(i) otherwise, key = chain code, child = parent + IL, chain = IR, fingerprint = HASH160(serP(K))[0..4], depth + 1, index i; CKDpub refuses exactly i >= 2^31, uses "
+                      "the same data layout, child = point(IL) + K; the string payload is version || depth || fingerprint || ser32(index) || chain || (00||k | serP(K)) || SHA256d[0..4] with the xprv/xpub "
+                      "version constants; from_string on an ARBITRARY 82-byte payload returns exactly those fields and accepts only when the last four bytes are the checksum of the first 78; "
+                      "every well-formed path component digits[' h H] parses to the value plus 2^31 exactly when a suffix is present and is refused from 2^31 up. "
+                      "NOT decided: derive_from_path's splitting of the path string on '/', paths deeper than one step (composition of the step claim), mnemonic seeds.")
+OBLIGATIONS.append(M("C08", "c08_bip32_glue", {"q": "bip32"}, ["ExtendedPrivateKey::{from_seed_impl,derive_impl,to_string_impl,from_string_impl}", "ExtendedPublicKey::{derive_impl,to_string_impl,from_string_impl}", "PrivateKey::{from_bytes_impl,to_bytes}", "PublicKey::{from_private_key_impl,from_bytes_impl,to_bytes_impl}", "Hash::{sha_512_hmac,hash_160,sha_256d}"],
+                     "all parent states (32-byte secret / 33-byte key, chain code, depth < 255, index, fingerprint), all 2^32 child indices, seeds of symbolic length, all 82-byte string payloads", cost=1,
+                     stubs=("E2 BIP32 models: SecretKey::from_be_bytes -> validity predicate; Scalar add -> SCALAR_ADD_MOD_N (commutative); from_sec1_bytes -> point validity; GENERATOR * s -> POINT_MUL_G; point add -> POINT_ADD (commutative); from_affine -> identity test; "
+                            "PrivateKey::get_point -> PUBKEY_COMPRESSED(secret); content-aware std::io::Cursor<Vec<u8>> (fixed-size reads/writes, set_position, read_to_end, get_ref); chunks_exact; bs58 encode/decode as inverse constructors; hash engines and Hmac as in C13",
+                            "assumed: the public_key field of an ExtendedPrivateKey is the compressed key of its private key (established by every constructor); parent depth < 255")))
+OBLIGATIONS.append(M("C08", "c08_path_components", {"q": "bip32_path", "max_digits": 10}, ["ExtendedPrivateKey::parse_str_to_idx", "ExtendedPublicKey::parse_str_to_idx"],
+                     "every component of 1..10 decimal digits (all values up to 9999999999, so both sides of 2^31 and of u32 overflow) with no suffix or one of ' h H; ASCII only", cost=1,
+                     stubs=("E2 string models for byte strings of known length: str::ends_with(char), to_lowercase (ASCII), trim_end_matches(char), parse::<u32> (optional '+', digits, overflow)",)))
+
 
 def for_property(pid):
     return [dict(o) for o in OBLIGATIONS if o["property"] == pid]
